@@ -71,6 +71,59 @@ let handle (toks : string list) : string =
             Printf.sprintf "%s loads=%s rest=%d/%d peek=%s senc=%s" head
               (if ls = [] then "-" else String.concat "|" ls)
               (List.length s.s_bits) (List.length s.s_refs) (if pk then "1" else "0") senc))
+  | "hm_ser" :: n :: rest ->
+    let (ns, kvs) = parse_dag rest in
+    let trees = tree_of_dag ns in
+    let n = int_of_string n in
+    (* insertion sequence with dict semantics: last write wins, first position kept *)
+    let d = List.fold_left (fun d t -> let (k, v) = parse_kv trees t in dict_set d k v) [] kvs in
+    (match serialize_dict d (nat_of_int n) with
+     | Err e -> "err " ^ err_name e
+     | Ok None -> "ok none"
+     | Ok (Some c) -> "ok " ^ cell_text c)
+  | "hm_rt" :: n :: rest ->
+    let (ns, kvs) = parse_dag rest in
+    let trees = tree_of_dag ns in
+    let n = int_of_string n in
+    let d = List.fold_left (fun d t -> let (k, v) = parse_kv trees t in dict_set d k v) [] kvs in
+    (match serialize_dict d (nat_of_int n) with
+     | Err e -> "err " ^ err_name e
+     | Ok None -> "ok none"
+     | Ok (Some (Cell (ty, bits, refs))) ->
+       (match parse_hashmap ty { s_bits = bits; s_refs = refs } (z_of_int n) with
+        | Err e -> "err " ^ err_name e
+        | Ok ls -> "ok " ^ (if ls = [] then "-" else String.concat "," (List.map show_leaf ls))))
+  | "hm_parse" :: n :: rest ->
+    let (ns, args) = parse_dag rest in
+    let trees = tree_of_dag ns in
+    let Cell (ty, bits, refs) = trees.(Array.length trees - 1) in
+    (match hashmap_parse ty { s_bits = bits; s_refs = refs } (z_of_int (int_of_string n)) with
+     | Err e -> "err " ^ err_name e
+     | Ok None -> "ok none"
+     | Ok (Some ls) -> "ok " ^ (if ls = [] then "-" else String.concat "," (List.map show_leaf ls)))
+  | "hm_parse_aug" :: n :: ylen :: rest ->
+    let (ns, args) = parse_dag rest in
+    let trees = tree_of_dag ns in
+    let Cell (ty, bits, refs) = trees.(Array.length trees - 1) in
+    (match parse_aug_edge parse_fuel (nat_of_int (int_of_string ylen)) ty { s_bits = bits; s_refs = refs }
+             (z_of_int (int_of_string n)) [] with
+     | Err e -> "err " ^ err_name e
+     | Ok (ls, ex) -> Printf.sprintf "ok %s extras=%s" (if ls = [] then "-" else String.concat "," (List.map show_leaf ls))
+                        (commas str_of_bits ex))
+  | ["hm_kinds"; m] ->
+    (* for n = 0..m: model kind and reference kind, for an all-same label and a mixed one *)
+    let m = int_of_string m in
+    let buf = Buffer.create 4096 in
+    for n = 0 to m do
+      let same = List.init n (fun _ -> true) in
+      let mixed = List.init n (fun i -> i = 0) in
+      List.iter (fun l ->
+          Buffer.add_char buf (kind_char (detect_label_type l (nat_of_int m)));
+          Buffer.add_char buf (kind_char (s_label_kind l (nat_of_int m)))) [same; mixed]
+    done;
+    Buffer.contents buf
+  | ["hm_key"; n; k] ->
+    show_res str_of_bits (key_bits (nat_of_int (int_of_string n)) (z_of_hex k))
   | "senc" :: rest ->
     let (ns, ops) = parse_dag rest in
     let trees = tree_of_dag ns in
